@@ -83,6 +83,7 @@ fn any_number_element() -> TypedArrayElement {
     }
 }
 
+// ALSO: C02
 #[kani::proof_for_contract(TypedArrayKind::to_element_f64)]
 fn c15_to_element_f64() {
     let kind = number_kind();
@@ -99,6 +100,7 @@ fn c15_to_element_f64() {
 /// The BigInt kinds hit the documented panic instead of producing an element.
 // EXPECT-PANIC: cannot convert f64 to BigInt typed array element
 // FN: TypedArrayKind::to_element_f64
+// ALSO: C02
 #[kani::proof]
 #[kani::should_panic]
 fn c15_to_element_f64_bigint_kinds_panic() {
